@@ -6,6 +6,7 @@ import (
 	"fmt"
 	"math"
 	"net"
+	"slices"
 	"sort"
 	"strings"
 	"time"
@@ -1756,14 +1757,25 @@ func (c Conditions) clean() Conditions {
 		switch ccc := cc.(type) {
 		case *TagCondition:
 			lcs = append(lcs, *ccc)
+		// the lists of a condition are sorted and shortened in place below, the conditions
+		// themselves may be shared (the conditions of a tag are), so work on copies of the lists
 		case *FlagCondition:
-			fcs = append(fcs, *ccc)
+			fc := *ccc
+			fc.SubQueries = slices.Clone(fc.SubQueries)
+			fcs = append(fcs, fc)
 		case *HostCondition:
-			hcs = append(hcs, *ccc)
+			hc := *ccc
+			hc.HostConditionSources = slices.Clone(hc.HostConditionSources)
+			hc.Host = slices.Clone(hc.Host)
+			hcs = append(hcs, hc)
 		case *NumberCondition:
-			ncs = append(ncs, *ccc)
+			nc := *ccc
+			nc.Summands = slices.Clone(nc.Summands)
+			ncs = append(ncs, nc)
 		case *TimeCondition:
-			tcs = append(tcs, *ccc)
+			tc := *ccc
+			tc.Summands = slices.Clone(tc.Summands)
+			tcs = append(tcs, tc)
 		case *DataCondition:
 			dcs = append(dcs, *ccc)
 		case *ImpossibleCondition:
